@@ -792,7 +792,7 @@ class TransferManager(BaseManager):
 
         4. Calculate the transfer offset and send it
 
-           * In case this fails: put transfer to INCOMPLETE
+           * In case this fails: put the transfer back to QUEUED
 
         5. Start downloading, see :meth:`_download_file` : exception cases are
            handled internally by this method
@@ -844,7 +844,9 @@ class TransferManager(BaseManager):
             if transfer.is_upload():
                 await transfer.state.fail()
             else:
-                await transfer.state.incomplete()
+                # INITIALIZING has no transition to INCOMPLETE: put the download
+                # back in the queue, as is done when the file connection times out
+                await transfer.state.queue()
             return
 
         except asyncio.CancelledError:
